@@ -361,11 +361,13 @@ def c12(fails, stats, tier):
     from bp.encoding.bpsec import BlockIntegrityBlock, BlockConfidentialityBlock, TargetResultList, TypeValuePair
     import bp.app.bpsec as bs
 
-    def secblk(cls, num, ctx, targets, nres=1):
+    def secblk(cls, num, ctx, targets, nres=1, lists=None):
+        # lists: number of per-target result lists (default: one per target)
+        nl = len(targets) if lists is None else lists
         return CanonicalBlock(block_num=num, crc_type=1) / cls(
             targets=list(targets), context_id=ctx, context_flags=1, parameters=[TypeValuePair(type_code=99, value=0)],
             source='dtn://s/', results=[TargetResultList(results=[TypeValuePair(type_code=1, value=b'\xd1\x80')] * nres)
-                                        for _t in targets])
+                                        for _t in range(nl)])
 
     def run(blocks, verdicts, accept):
         ag, sent, fin = new_agent([(r'dtn://me/.*', 'deliver')])
@@ -422,6 +424,11 @@ def c12(fails, stats, tier):
         ('bcb-unknown-context', [secblk(BCB, 3, 99, [1])], ok1, False),
         ('two-bcbs-second-fails', [secblk(BCB, 3, 3, [1]), secblk(BCB, 4, 3, [2])], ok1, False),
         ('bcb-verifies-bib-fails', [secblk(BCB, 3, 3, [1]), secblk(BIB, 4, 3, [2])], ok1, False),
+        # fewer result lists than targets: the targets without a result cannot have been verified
+        ('bib-no-results-at-all', [secblk(BIB, 3, 3, [1], lists=0)], ok1, False),
+        ('bcb-no-results-at-all', [secblk(BCB, 3, 3, [1], lists=0)], ok1, False),
+        ('bib-result-for-first-target-only', [secblk(BIB, 3, 3, [2, 1], lists=1)], {(3, 2): 'ok', (3, 1): 'ok'}, False),
+        ('bcb-result-for-first-target-only', [secblk(BCB, 3, 3, [2, 1], lists=1)], {(3, 2): 'ok', (3, 1): 'ok'}, False),
     ]
     for name, blocks, verdicts, deliver in scen:
         for accept in (False, True):
